@@ -43,6 +43,18 @@ claim("C14", "The real AKAI table loop runs over an abstract table with a nondet
       "SafeListConstruct and the Roland partial's reference loop are run with symbolically failing sub-parsers.",
       XT + " with nondeterministic sub-parser stubs", "DESIGN.md 2/C14")
 
+claim("C13", "Every loop named in the anchors is run symbolically with a fuel counter whose exhaustion z3 shows unreachable (unwinding assertion): cue-sheet "
+      "line consumption for every sequence of line kinds, the AKAI partition scan with a nondeterministic partition body (symbolic size words incl. 0), "
+      "StreamWrapper.readall, the SAT/FAT decoders and get_path (shared with C07) and the directory table loop (shared with C14). The whole-program "
+      "CPU/memory-proportionality clause is a measurement and is NOT claimed (see level_note).",
+      XT + "; termination as solver-checked unwinding assertions", "DESIGN.md 2/C13",
+      note=TRUST + " NOT covered: CPU seconds / peak memory of whole runs on arbitrary bytes (not expressible as a bounded symbolic claim); loops inside construct/numpy; keygroup chains.")
+
+claim("C15", "The AKAI mono stack (C01), the AKAI stereo pair through the real PipelineTranscoder and the CDDA drain are re-run with the backing file cut at a "
+      "symbolic byte position: z3 shows the loop ends, every block is whole frames, every emitted byte is the byte the complete image yields at that PCM "
+      "position and lies below the cut (no padding, no foreign bytes), and a sample whose sectors all lie below the cut is complete; partition scan keeps "
+      "the partitions before the first unparsable header.", XT, "DESIGN.md 2/C15")
+
 _pending = "check not built yet in this session (work in progress; see DESIGN.md section 2 for the planned obligations)"
 for _p in ["C01","C02","C03","C04","C05","C06","C07","C09","C10","C11","C12","C13","C14","C15","C16","C17","C18","C19","C20"]:
     if _p not in CHECKS:
